@@ -50,6 +50,9 @@ def liftErr : Err → TErr
   | .TypeError => .TypeError
   | .InvalidConstraintsError => .other "InvalidConstraintsError"
   | .KeyError => .KeyError
+  | .AttributeError => .other "AttributeError"
+  | .IndexError => .other "IndexError"
+  | .OutOfFuel => .other "OutOfFuel"
 
 /-- `version_class(x) in VersionRange.from_string(t)` for a vers string of the scheme whose version
 class is `T` (`mkVer` must hand `T.mk'` to that version class) -/
